@@ -3,6 +3,7 @@ from __future__ import annotations
 
 import ast
 
+from ..cfg import guards_of
 from ..dataflow import cone, get_defuse, stores
 from ..engines import dimrun, guard, pol
 from ..frontend import src, walk_no_nested
@@ -86,6 +87,16 @@ def check_precision(P, R):
     cov = [x for x in t if any("inv" in a for a in x[1])]
     R.check(bool(t) and all(s_ == 1 for s_, a in t) and len(t) >= 2 and bool(cov), "PREC.second-moment", g.key, f"N E[w w'] = {pol.fmt_terms(t)[:90]}", "N * (posterior covariance + outer product of the mean), all positive", f"the accumulated second moment is not N * (inverse precision + mean outer product): {pol.fmt_terms(t)[:120]}", st.lineno)
     R.check(all(any(a.endswith(".n") for a in x[1]) for x in t), "PREC.second-moment", g.key, "weighted by the counts", "", "E[w w'] is not weighted by the counts", st.lineno)
+    # the E-step sums have no divisions: counts, statistics, means and posterior moments all multiply
+    gi = pol.Pol(P, g, track_inv=True)
+    nn = 0
+    for attr in ("nij_sigma_wij2", "fnorm_sigma_wij", "snormij", "nij"):
+        st2, v2 = _acc_store(g, attr)
+        if v2 is None:
+            continue
+        it = list(dict.fromkeys(gi.terms(v2, gi.du.stmt_of(st2))))
+        nn += pol.check_inverse(R, "PREC.placement", g.key, it, direct=["n", "sum_px", "sum_pxx", "means", "call:*", "inv*", attr], what=f"stats.{attr}: every factor multiplies", line=st2.lineno)
+    R.floor("PREC.placement atoms", nn, 8)
 
 
 def _kernel_calls(P, f):
@@ -196,7 +207,18 @@ def run(P, R, tier):
     f = P.func(IV + "m_step")
     du = get_defuse(f, P)
     mp, sp = f.value_params[:2]
+    n_T = n_sigma = 0
     for st, t, v, k in stores(f):
+        if isinstance(t, ast.Attribute) and t.attr == "sigma" and isinstance(t.value, ast.Name) and t.value.id == mp and k == "assign":
+            n_sigma += 1
+            c = cone(du, v, du.stmt_of(st), interproc=False)
+            R.check(c.has_attr("snormij") and c.has_attr("fnorm_sigma_wij") and c.has_attr("nij"), "DEP.sigma", f.key, f"{src(t)} = {src(v)[:40]}", "(Snorm - diag(Fnorm E[w]' T')) / N", "the new sigma is not computed from the centred second-order statistics, the cross term and the counts", st.lineno)
+            g_ = [src(test) for test, pol_ in guards_of(du.stmt_of(st)) if pol_]
+            R.check(any("update_sigma" in x for x in g_), "DEP.sigma", f.key, "sigma updated under machine.update_sigma", "", "sigma is updated regardless of update_sigma", st.lineno)
         if isinstance(t, ast.Attribute) and t.attr == "T" and isinstance(t.value, ast.Name) and t.value.id == mp:
+            n_T += 1
+            R.check(not guards_of(du.stmt_of(st)), "DEP.T", f.key, "T is updated on every M-step", "", "the T update is conditional", st.lineno)
             c = cone(du, v, du.stmt_of(st), interproc=False)
             R.check(c.has_attr("nij_sigma_wij2") and c.has_attr("fnorm_sigma_wij") and c.calls_any("solve", "inv"), "DEP.T", f.key, f"{src(t)} = {src(v)[:40]}", "solve(sum N E[ww'], sum Fnorm E[w]')", "the new T does not solve the normal equations built from both accumulators", st.lineno)
+    R.check(n_T >= 1, "DEP.T", f.key, "m_step stores machine.T", "", "the M-step no longer updates T: training returns the initial total-variability matrix")
+    R.check(n_sigma >= 1, "DEP.sigma", f.key, "m_step stores machine.sigma", "", "the M-step no longer updates sigma (update_sigma has no effect)")
